@@ -208,6 +208,12 @@ def commit(bk, st):
         pr['window'] = int(op[2])
     if k == 'settimeout' and pr is not None and ret and ret.get('how') == 'none':
         pr['initialT'] = int(op[2])
+    if k == 'setbw' and pr is not None and ret and ret.get('how') == 'none':
+        from fractions import Fraction
+        try:
+            pr['factor'] = Fraction(op[3])
+        except (ValueError, ZeroDivisionError, IndexError):
+            pass
     if k == 'connect' and pr is not None and ret and ret.get('how') == 'pending':
         pr['conns'] += 1
         pr['clean'] = op[5] == '1'; pr['ver'] = op[4]; pr['keepalive'] = int(op[3]); pr['connected'] = False
@@ -215,11 +221,23 @@ def commit(bk, st):
         bk.dfd[ret['d']] = dict(kind='connect', p=st.p, addr=pr['addr'], state='pending', step=st.idx, keepalive=int(op[3]), at=st.now, conn=pr['conns'])
     addr = pr['addr'] if pr is not None else None
     if k == 'publish' and pr is not None and ret and ret.get('how') in ('pending', 'ok'):
-        qos = int(op[4])
         tok = op[3]
-        payload = unhex(tok[2:]) if tok[:2] in ('s:', 'b:') else None
-        rec = dict(d=ret.get('d'), id=ret.get('mid'), qos=qos, topic=unhex(op[2][2:]).decode('utf-8'), payload=payload, retain=op[5] == '1',
+        # an accepted publish() may have arguments no PUBLISH can carry (a defect C20 reports): the book must survive it
+        try:
+            qos = int(op[4])
+        except ValueError:
+            qos = -1
+        try:
+            payload = unhex(tok[2:]) if tok[:2] in ('s:', 'b:') else None
+        except ValueError:
+            payload = None
+        try:
+            topic = unhex(op[2][2:]).decode('utf-8') if op[2][:2] == 's:' else None
+        except (ValueError, UnicodeDecodeError):
+            topic = None
+        rec = dict(d=ret.get('d'), id=ret.get('mid'), qos=qos, topic=topic, payload=payload, retain=op[5] == '1',
                    p=st.p, addr=addr, stage='queued', txs=[], pubrec=False, step=st.idx, conn=(st.p, pr['conns']), acked_first=False,
+                   factor_at=(pr.get('factor') or 2),
                    initial_created=pr['initialT'] if pr['initialT'] is not None else DEFAULT_INITIAL_T[0])
         bk.pubs[addr].append(rec)
         if rec['d'] is not None:
@@ -772,7 +790,9 @@ class C08(Monitor):
                     g1 = (prev[0] - txs[-3][0]) / TICK - txs[-3][5]
                     g2 = (cur[0] - prev[0]) / TICK - prev[5]
                     if g2 < g1 - 1e-4:
-                        self.flag('gap-shrinks', 'PUBLISH id %d: retry gaps net of jitter shrink from %.4f s to %.4f s' % (pk['id'], g1, g2), st)
+                        # the one accepted cause (known finding KF-3): the message was accepted while a factor below 1 was in force
+                        sig = 'gap-shrinks-factor-below-one' if (rec.get('factor_at') or 2) < 1 else 'gap-shrinks'
+                        self.flag(sig, 'PUBLISH id %d: retry gaps net of jitter shrink from %.4f s to %.4f s' % (pk['id'], g1, g2), st)
         # remember the initial timeout in force when a packet is first sent
         for e in st.ev:
             if e['k'] == 'w' and e['pkt'] and e.get('rec') is not None and e['pkt']['type'] in self.KINDS:
@@ -862,7 +882,7 @@ class C10(Monitor):
                     (rec['payload'] is None or rec['payload'] == pk['payload']) and (not pk['qos'] or rec['id'] == pk['id'])
                 if not same:
                     self.flag('fifo', 'first transmissions out of publish() order: wrote (%s,qos %d,id %r), oldest waiting is (%s,qos %d,id %r)'
-                              % (pk['topic'][:12], pk['qos'], pk['id'], rec['topic'][:12], rec['qos'], rec['id']), st)
+                              % (str(pk['topic'])[:12], pk['qos'], pk['id'], str(rec['topic'])[:12], rec['qos'], rec['id']), st)
                 if pk['qos']:
                     a = q['addr']
                     n = sum(1 for r in bk.pubs[a] if r['qos'] and r['stage'] == 'inflight' and r['txs'])
@@ -931,6 +951,13 @@ class C11(Monitor):
                 cut = getattr(self, 'cut', {}).get(a)
                 if cut is not None and e['rec']['step'] < cut and st.idx > cut:
                     self.flag('carried-over', '%s id %r requested before the clean-session loss at step %d was written afterwards' % (e['pkt']['type'], e['pkt'].get('id'), cut), st)
+            if e['k'] == 'w' and e['pkt'] and e.get('rec') is None and e['pkt']['type'] in ('PUBLISH', 'PUBREL', 'SUBSCRIBE', 'UNSUBSCRIBE'):
+                # a request packet nobody asked for on this connection: after a clean-session loss it can only be a leftover of the old one
+                q = bk.proto(e['p'])
+                cut = getattr(self, 'cut', {}).get(q['addr']) if q else None
+                if cut is not None and st.idx > cut:
+                    self.flag('carried-over', '%s id %r written after the clean-session loss at step %d although nothing requested since asks for it'
+                              % (e['pkt']['type'], e['pkt'].get('id'), cut), st)
             if e['k'] == 'fired':
                 r = bk.dfd.get(e['d'])
                 cut = getattr(self, 'cut', {}).get(r['addr']) if r else None
@@ -998,6 +1025,12 @@ class C12(Monitor):
                 for e in ws:
                     if not e.get('first'):
                         self.flag('clean-resent', 'clean-session CONNACK re-sent %s id %d' % (e['pkt']['type'], e['pkt']['id']), st)
+            # "releases held-back messages as the window allows": once the CONNACK has been processed either nothing waits or the window is full
+            queued = [r for r in bk.pubs[a] if r['stage'] == 'queued']
+            occupied = sum(1 for r in bk.pubs[a] if r['qos'] and r['stage'] == 'inflight')
+            if queued and occupied < pr['window'] and not pr['disc'] and not pr.get('aborted'):
+                self.flag('held-back-not-released', 'after the CONNACK %d message(s) are still held back although only %d of %d window slots are taken'
+                          % (len(queued), occupied, pr['window']), st)
             for r in own:
                 if any(e['d'] == r['d'] for e in fired if r['d'] is not None):
                     self.flag('own-failed', 'publish id %r requested on this connection before its CONNACK was settled by the resumption' % r['id'], st)
